@@ -325,7 +325,6 @@ def _diag_view(src: str) -> str:
 KNOCKOUTS = [
     Knockout("equivalency-raw-compare", SRC, sub_once("        return canonical_form(stab1.copy()) == canonical_form(stab2.copy())", "        return stab1 == stab2"), "canon.compare", "without canonical forms", on_fixed_only=True),
     Knockout("rep-cache", STATE, sub_once("            self._rep_data = conversion_func(tmp_data)", "            if not hasattr(self, '_memo'):\n                self._memo = {}\n            self._memo[self._rep_type] = tmp_data\n            self._rep_data = self._memo[rep_type] if rep_type in self._memo else conversion_func(tmp_data)"), "table.convert", "not computed from the current data"),
-    Knockout("density-signs-ignored", SRC, sub_once("        stabilizer_elem = sign * sfu.get_stabilizer_element_by_string(generator)", "        stabilizer_elem = sfu.get_stabilizer_element_by_string(generator)"), "sign.used", "signs of the generators ignored", on_fixed_only=True),
     Knockout("s-to-g-clifford-arg", STATE, sub_once("            graph_list = rc.stabilizer_to_graph(rep.data.to_stabilizer())", "            graph_list = rc.stabilizer_to_graph(rep.data)"), "call.accepts", "receives a CliffordTableau", on_fixed_only=True),
     Knockout("dm-to-g-array-arg", STATE, sub_once("            new_rep = Graph(nx.from_numpy_array(new_data))", "            new_rep = Graph(new_data)"), "call.accepts", "adjacency array", on_fixed_only=True),
     Knockout("clifford-input-signs-dropped", SRC, sub_once("        tab = state.to_stabilizer()\n", "        tab = StabilizerTableau(state.stabilizer)\n"), "sign.carry", "without signs"),
